@@ -285,7 +285,7 @@ fn e_many_sites(i: u64, ctx: &mut Ctx) -> Result<(), Failure> {
 }
 
 pub fn streams() -> Vec<Stream> {
-    vec![Stream { name: "many-sites", kind: Kind::Enum { count: |_| 16, complete: |_| true, f: e_many_sites }, isolate: false }, Stream { name: "markers", kind: Kind::Tape { cases: |t: Tier| t.pick(12_000, 300_000), max_len: 600, f: s_markers }, isolate: false }]
+    vec![Stream { name: "many-sites", kind: Kind::Enum { count: |_| 16, complete: |_| true, f: e_many_sites }, isolate: false }, Stream { name: "markers", kind: Kind::Tape { cases: |t: Tier| t.pick(12_000, 150_000), max_len: 600, f: s_markers }, isolate: false }]
 }
 
 pub fn def() -> PropertyDef {
